@@ -5,6 +5,8 @@
 (* text file read by skgenome.tabio.read / cnvlib.cmdutil.load_het_snps (direction 1).                   *)
 EXTENDS Variants
 CONSTANTS Scope,     \* which family of inputs
+          Tier,      \* "thorough": the full scope; "quick": the documented sub-scope (Shard picks a third of the two-pair headers)
+          Shard,     \* 0..2
           MindSet    \* values of min_depth enumerated in the "select" scope (0 stands for "not given")
 
 VARIABLES op, vcf, args, segs, ph
@@ -28,7 +30,12 @@ SelGT2 == << <<1, 1>>, <<0, 1>>, <<0, 1>> >>
 SelRecs(n) == << Rc(1, 5, "A", "G", <<"PASS">>, FALSE, -1, TRUE, TRUE, [j \in 1..n |-> Cl(SelGT1[j], <<10, j>>, 10 * j)]),
                  Rc(1, 9, "C", "T", <<>>, TRUE, -1, TRUE, TRUE, [j \in 1..n |-> Cl(SelGT2[j], <<5, j + 3>>, 10 * j + 1)]) >>
 PedPairs(n) == {<<Names[i], Names[j]>> : i, j \in 1..n} \ {<<Names[i], Names[i]>> : i \in 1..n}
-PedSeqs(n) == {<<>>} \cup {<<p>> : p \in PedPairs(n)} \cup {<<p, q>> : p, q \in PedPairs(n)}
+NameNo(x) == CHOOSE i \in 1..3 : Names[i] = x
+TwoPairs(n) == {<<p, q>> : p, q \in PedPairs(n)}
+PedSeqs(n) == {<<>>} \cup {<<p>> : p \in PedPairs(n)}
+              \cup (IF Tier = "quick" /\ n = 3
+                    THEN {pq \in TwoPairs(n) : (NameNo(pq[1][1]) + NameNo(pq[2][2])) % 3 = Shard}
+                    ELSE TwoPairs(n))
 IdArgs(n) == {<<"none", "", 0>>} \cup {<<"name", Names[i], 0>> : i \in 1..n} \cup {<<"name", "ZZ", 0>>}
              \cup {<<"index", "", i>> : i \in 0..n}
 InitSelect ==
@@ -44,7 +51,9 @@ ADs == {<<-1>>, <<0, 0>>, <<2, 0>>, <<1, 1>>, <<0, 2>>, <<3>>, <<1, -1>>, <<-1, 
 DPs == {-1, 0, 1, 2, 3}
 InitRecord ==
     \E fad, fdp \in BOOLEAN : \E gt \in GTs : \E ad \in (IF fad THEN ADs ELSE {<<-1>>}) :
-    \E dp \in (IF fdp THEN DPs ELSE {-1}) : \E idp \in {-1, 2} : \E md \in {-1, 0, 2} :
+    \E dp \in (IF fdp THEN DPs ELSE {-1}) :
+    \E idp \in (IF Tier = "quick" /\ (fad \/ fdp) THEN {-1} ELSE {-1, 2}) :
+    \E md \in (IF Tier = "quick" THEN {-1, 2} ELSE {-1, 0, 2}) :
         /\ op = "read" /\ segs = NoSegs
         /\ vcf = Vcf(<<"S1">>, <<>>, << Rc(1, 3, "A", "G", <<"PASS">>, FALSE, idp, fad, fdp, <<Cl(gt, ad, dp)>>) >>)
         /\ args = [DefaultArgs EXCEPT !.mind = md]
@@ -76,9 +85,14 @@ NCalls == {Cl(<<0, 1>>, <<2, 2>>, 4), Cl(<<0, 1>>, <<3, 1>>, 4), Cl(<<0, 0>>, <<
            Cl(<<1, 1>>, <<0, 4>>, 4), Cl(<<-1, -1>>, <<-1>>, -1), Cl(<<0, 1>>, <<1, 1>>, 2), Cl(<<0, 1>>, <<0, 3>>, 3)}
 HetArgs == {<<"read", 0, 0, FALSE>>, <<"hets", 0, 0, FALSE>>, <<"hets", 0, 0, TRUE>>, <<"hets", 1, 4, FALSE>>,
             <<"hets", 1, 4, TRUE>>, <<"hets", 1, 2, FALSE>>, <<"hets", 0, 1, FALSE>>}
+PairQuick == {<<<<"read", 0, 0, FALSE>>, 0, FALSE>>, <<<<"read", 0, 0, FALSE>>, 2, FALSE>>, <<<<"read", 0, 0, FALSE>>, 2, TRUE>>,
+              <<<<"hets", 0, 0, FALSE>>, 0, FALSE>>, <<<<"hets", 0, 0, FALSE>>, 2, TRUE>>, <<<<"hets", 0, 0, TRUE>>, 0, TRUE>>,
+              <<<<"hets", 1, 4, FALSE>>, 0, FALSE>>, <<<<"hets", 1, 4, TRUE>>, 2, FALSE>>, <<<<"hets", 1, 2, FALSE>>, 0, FALSE>>,
+              <<<<"hets", 0, 1, FALSE>>, 0, TRUE>>}
 InitPair ==
     \E t \in TCalls : \E nc \in NCalls : \E t2 \in {Cl(<<0, 1>>, <<1, 2>>, 3), Cl(<<0, 0>>, <<3, 0>>, 3)} :
     \E ha \in HetArgs : \E md \in {0, 2} : \E byped \in BOOLEAN :
+        /\ (Tier = "quick") => <<ha, md, byped>> \in PairQuick
         /\ op = ha[1] /\ segs = NoSegs
         /\ vcf = Vcf(<<"S1", "S2">>, IF byped THEN << <<"S1", "S2">> >> ELSE <<>>,
                      << Rc(1, 3, "A", "G", <<>>, FALSE, -1, TRUE, TRUE, <<t, nc>>),
@@ -121,6 +135,7 @@ BTN == {<<Cl(<<0, 1>>, <<3, 1>>, 4), Cl(<<0, 1>>, <<2, 2>>, 4)>>, <<Cl(<<0, 1>>,
 BoostOps == {<<"baf", -1>>, <<"baf", 1>>, <<"boost", -1>>, <<"mirror", -1>>, <<"mirror", 0>>}
 InitBoost ==
     \E h1, h2, h3 \in BOOLEAN : \E p1, p2, p3 \in BTN : \E bo \in BoostOps :
+        /\ (Tier = "quick") => ~h3
         /\ (~h1 => p1 = CHOOSE x \in BTN : TRUE) /\ (~h2 => p2 = CHOOSE x \in BTN : TRUE)
         /\ (~h3 => p3 = CHOOSE x \in BTN : TRUE)
         /\ op = bo[1] /\ segs = BafSegs
